@@ -556,7 +556,8 @@ impl Policy {
             Layout::Canonical | Layout::Minimal => " ".to_string(),
             _ => {
                 if self.wild && rng.chance(10) {
-                    "\n ".to_string()
+                    // a line break between two terms, with and without indentation behind it
+                    rng.pick(&["\n ", "\n", " \n", "\n\t"]).to_string()
                 } else {
                     ws(rng)
                 }
